@@ -380,9 +380,12 @@ impl store::Cob for Identity {
     ) -> Result<(), ApplyError> {
         let id = op.id;
         let concurrent = concurrent.into_iter().collect::<Vec<_>>();
+        // Nb. The actions are applied to a copy of the state, which replaces the
+        // state only if the operation is accepted: a rejected operation has no effect.
+        let mut identity = self.clone();
 
         for action in op.actions {
-            match self.action(action, id, op.author, op.timestamp, &concurrent, repo) {
+            match identity.action(action, id, op.author, op.timestamp, &concurrent, repo) {
                 Ok(()) => {}
                 // This particular error is returned when there is a mismatch between the expected
                 // and the actual state of a revision, which can happen concurrently. Therefore
@@ -397,9 +400,11 @@ impl store::Cob for Identity {
                 Err(ApplyError::Redacted) => {}
                 Err(other) => return Err(other),
             }
-            debug_assert!(!self.timeline.contains(&id));
-            self.timeline.push(id);
+            debug_assert!(!identity.timeline.contains(&id));
+            identity.timeline.push(id);
         }
+        *self = identity;
+
         Ok(())
     }
 }
